@@ -77,7 +77,10 @@ def replies(max_parts=5, long=True):
 
 
 CMD_TEXTS = ["GETINFO version", "GETINFO ns/all", "GETCONF SocksPort", "SIGNAL NEWNYM",
-             "GETINFO circuit-status", "FOO bar baz", "X"]
+             "GETINFO circuit-status", "FOO bar baz", "X",
+             # "verbatim": blanks, tabs and quoting inside a command are the caller's business
+             'SETCONF ContactInfo="Jane  Doe   <j@example.org>"', "GETCONF ", "SETCONF  Nickname=a\tb ",
+             "  GETINFO   version", 'SETCONF Log="notice file /tmp/a\\ b"']
 
 
 def commands(long=True, max_parts=5):
